@@ -1,12 +1,12 @@
 SPECIFICATION Spec
 CONSTANTS
-  MaxLen = 4
-  MaxNodes = 3
+  MaxLen = 5
+  MaxNodes = 4
   MaxVnodes = 2
   NDcs = 2
   NRacks = 2
   NtsRfs = {99, 0, 1, 2, 3}
   XRfs = {99, 0, 1}
-  SimpleRfs = {0, 1, 2, 3, 4}
+  SimpleRfs = {0, 1, 2, 3, 4, 5}
 INVARIANTS RefOK CountsOK LookupOK Emit
 CHECK_DEADLOCK FALSE
